@@ -9,7 +9,7 @@ from ..context import DEFAULT_SQL_CONTEXT, SqlContext
 from ..enums import Dialects
 from ..exceptions import QueryException
 from ..queries import Query, QueryBuilder
-from ..terms import ArithmeticExpression, Field, Function, Star, Term
+from ..terms import AggregateFunction, ArithmeticExpression, Field, Function, Star, Term
 from ..utils import builder
 
 if TYPE_CHECKING:
@@ -85,8 +85,11 @@ class PostgreSQLQueryBuilder(QueryBuilder):
                 self._return_field_str(term)
             elif isinstance(term, ArithmeticExpression):
                 self._return_other(term)
-            elif isinstance(term, Function):
+            elif isinstance(term, AggregateFunction):
                 raise QueryException("Aggregate functions are not allowed in returning")
+            elif isinstance(term, Function):
+                # a row-wise function is an expression over the written row like any other
+                self._return_other(term)
             else:
                 self._return_other(self.wrap_constant(term, self._wrapper_cls))
 
